@@ -83,6 +83,8 @@ def execute(scenario, ch):
     sc = dict(scenario, tps=[dict(t) for t in scenario["tps"]], ref_depth=6)
     sc["all_frames"] = any(t.get("args", {}).get("frame_type") == "all_frame" for t in scenario["tps"])
     k, cases, ctx = snapcommon.run_cases(sc, ch)
+    if k.capped and not k.hang:
+        return common.result(k, [])     # cut off by the step / time budget: a half-done run, inconclusive
     viol = []
     cfg = scenario.get("cfg") or {}
     app_root = cfg.get("APP_ROOT", "/simapp")
